@@ -7,3 +7,7 @@ import BB.Props.C18
 #print axioms BB.NumMod.findPeriod_zero
 #print axioms BB.NumMod.expModInt_defined
 #print axioms BB.NumMod.reduce3_sound
+#print axioms BB.NumModTree.modE_correct_partial
+#print axioms BB.NumModTree.modE_correct_counterexample
+#print axioms BB.NumModTree.modE_correct_counterexample2
+#print axioms BB.NumModTree.modE_defined_simple
